@@ -666,6 +666,33 @@ fn judge_as(z: &RefZone, sign: &Sign, q: &QSpec, qname: &[Vec<u8>], qtype: u16, 
                     ));
                 }
             }
+            // RFC 5155 7.2.3 / 7.2.4: a NODATA answer for a name that exists (also as an empty
+            // non-terminal) carries the NSEC3 RR that *matches* the query name -- an NSEC3 that merely
+            // covers it would say the name does not exist. Judged from the records themselves: the
+            // parameters are read from each NSEC3 RR and the hash is recomputed here.
+            // (query names with an asterisk label are left to the known RFC 4592 deviations)
+            let asterisk_in_qname = qname.iter().any(|l| l.as_slice() == b"*");
+            if *sign != Sign::Nsec && matches!(exp.path, PathKind::NoDataExisting | PathKind::NoDataEnt) && exp.direct_negative && act.rcode == wl::RC_NOERROR && !asterisk_in_qname {
+                let nsec3s: Vec<&ARr> = act.authority.iter().filter(|r| r.rtype == wl::T_NSEC3).collect();
+                let opt_out = nsec3s.iter().any(|r| r.rdata.get(1).is_some_and(|f| f & 1 != 0));
+                let matches_qname = nsec3s.iter().any(|r| {
+                    let rd = &r.rdata;
+                    if rd.len() < 5 || rd[0] != 1 {
+                        return false;
+                    }
+                    let iterations = u16::from_be_bytes([rd[2], rd[3]]);
+                    let sl = rd[4] as usize;
+                    let Some(salt) = rd.get(5..5 + sl) else { return false };
+                    let h = crate::refm::zonemodel::nsec3_hash(qname, salt, iterations);
+                    r.owner.first().is_some_and(|l| l.eq_ignore_ascii_case(base32hex(&h).as_bytes()))
+                });
+                if !nsec3s.is_empty() && !opt_out && !matches_qname {
+                    return Err(fail(
+                        "nodata-without-nsec3-matching-the-query-name",
+                        format!("NODATA for an existing name, but no NSEC3 RR in the authority section matches H(qname): {}", show_arrs(&act.authority)),
+                    ));
+                }
+            }
             // RFC 4035 3.1.3 / RFC 5155 7.2: NSEC / NSEC3 records accompany negative answers,
             // wildcard answers and referrals to unsigned children. A plain positive answer (exact
             // data, or a CNAME chain ending in stored data) has nothing to deny; an NSEC(3) matching
@@ -693,6 +720,25 @@ fn judge_as(z: &RefZone, sign: &Sign, q: &QSpec, qname: &[Vec<u8>], qtype: u16, 
     })();
     v.fail = r.err();
     v
+}
+
+/// RFC 4648 7 base32hex without padding, lower case (the form NSEC3 owner labels use)
+fn base32hex(data: &[u8]) -> String {
+    const AL: &[u8; 32] = b"0123456789abcdefghijklmnopqrstuv";
+    let mut out = String::new();
+    let (mut acc, mut bits) = (0u32, 0u32);
+    for b in data {
+        acc = (acc << 8) | *b as u32;
+        bits += 8;
+        while bits >= 5 {
+            bits -= 5;
+            out.push(AL[((acc >> bits) & 31) as usize] as char);
+        }
+    }
+    if bits > 0 {
+        out.push(AL[((acc << (5 - bits)) & 31) as usize] as char);
+    }
+    out
 }
 
 fn apply_upper(name: &str, mask: u16) -> Name {
